@@ -30,6 +30,7 @@ type GenOpts struct {
 	NegAnywhere bool // negated atoms may be written before the atoms that bind their variables
 	NonLinear   bool // bias recursive rules towards several same-group atoms in one body
 	IDBFacts    bool // some derived predicates also have base facts written in the program
+	Ring        bool // add a ring of 2-4 mutually recursive predicates with one entry point and a consumer
 	AggBias     bool // C02: most rules aggregate, several aggregating rules per head
 }
 
@@ -50,6 +51,7 @@ func DrawOpts(r *simrt.Run) GenOpts {
 	o.ConstraintsEarly = r.Bool("gen.f.constraintsearly")
 	o.NonLinear = r.Bool("gen.f.nonlinear")
 	o.IDBFacts = r.Bool("gen.f.idbfacts")
+	o.Ring = r.OneIn(3, "gen.f.ring")
 	return o
 }
 
@@ -237,7 +239,50 @@ func GenProgram(r *simrt.Run, o GenOpts) *Program {
 			g.p.Rules = append(g.p.Rules, g.genRule(pi, k))
 		}
 	}
+	if o.Ring {
+		g.addRing(nEDB)
+	}
 	return g.p
+}
+
+// addRing appends a dependency cycle g0 -> g1 -> ... -> g0 of unary
+// predicates, fed by one extensional predicate at a drawn entry point (the
+// cyclic rule is listed before the entry rule), and a consumer that uses two
+// members of the ring.
+func (g *gen) addRing(nEDB int) {
+	r := g.r
+	var src *PredInfo
+	for i := 0; i < nEDB; i++ {
+		if len(g.p.Preds[i].Cols) >= 1 && !g.p.Preds[i].Cols[0].IsSet() {
+			src = &g.p.Preds[i]
+			break
+		}
+	}
+	if src == nil {
+		return
+	}
+	t := src.Cols[0]
+	k := 2 + r.Choose(3, "gen.ring.k")
+	group := 500
+	name := func(i int) string { return fmt.Sprintf("g%d", i%k) }
+	for i := 0; i < k; i++ {
+		g.p.Preds = append(g.p.Preds, PredInfo{Name: name(i), Cols: []Ty{t}, Group: group})
+	}
+	g.groupRec[group] = true
+	entry := r.Choose(k, "gen.ring.entry")
+	srcArgs := []Expr{V("X")}
+	for range src.Cols[1:] {
+		srcArgs = append(srcArgs, V("_"))
+	}
+	for i := 0; i < k; i++ {
+		g.p.Rules = append(g.p.Rules, Rule{Head: name(i), HArgs: []Expr{V("X")}, Body: []Lit{{K: LAtom, Pred: name(i + 1), Args: []Expr{V("X")}}}})
+		if i == entry {
+			g.p.Rules = append(g.p.Rules, Rule{Head: name(i), HArgs: []Expr{V("X")}, Body: []Lit{{K: LAtom, Pred: src.Name, Args: srcArgs}}})
+		}
+	}
+	a, b := r.Choose(k, "gen.ring.use1"), r.Choose(k, "gen.ring.use2")
+	g.p.Preds = append(g.p.Preds, PredInfo{Name: "gc", Cols: []Ty{t}, Group: group + 1})
+	g.p.Rules = append(g.p.Rules, Rule{Head: "gc", HArgs: []Expr{V("X")}, Body: []Lit{{K: LAtom, Pred: name(a), Args: []Expr{V("X")}}, {K: LAtom, Pred: name(b), Args: []Expr{V("X")}}}})
 }
 
 type varEnv struct {
